@@ -117,7 +117,7 @@ def judge(go, graph, dvals, retry=None):
     try:
       got = limited(go)
     except Timeout:
-      got = limited(retry or go, 90)
+      got = limited(retry or go, 40)
   except Timeout:
     return 'internal', 'recalculation did not terminate within the time limit'
   except Exception as x:
@@ -156,7 +156,7 @@ def search_graphs(ctx):
       if bad:
         ctx.violation(bad[0], bad[1], {'stream': 'graph', 'graph': [list(x) for x in graph], 'd': dvals, 'pseed': pseed})
         break
-    if sum(1 for v in ctx.violations if v['kind'] == 'internal') >= 4:
+    if sum(1 for v in ctx.violations if v['kind'] == 'internal') >= 2:
       return
   if ctx.tier == 'thorough':
     search_graphs4(ctx, dvals)
@@ -203,7 +203,7 @@ def _graph4_block(args):
         break
       if bad[0] == 'internal':
         try:
-          eng[0] = limited(lambda: _fresh_steps(graph, graph, dvals, pseed)[0], 90)
+          eng[0] = limited(lambda: _fresh_steps(graph, graph, dvals, pseed)[0], 40)
         except Exception:
           break
     prev, last = prog, graph
@@ -327,7 +327,7 @@ def search_progs(ctx):
     bad = run_prog(w)
     if bad:
       ctx.violation(bad[0], bad[1], w)
-    if sum(1 for v in ctx.violations if v['kind'] == 'internal') >= 8:
+    if sum(1 for v in ctx.violations if v['kind'] == 'internal') >= 3:
       return
 
 
@@ -397,6 +397,8 @@ def search_lookups(ctx):
     edits = [(ctx.rng.randint(1, 3), ctx.rng.choice([1, 2, 3, 4])) for _ in range(ctx.rng.randint(1, 3))]
     w = {'stream': 'lookup', 'formulas': formulas, 'd': d, 'edits': [list(x) for x in edits]}
     ctx.bump('lookup-robustness')
+    if sum(1 for v in ctx.violations if v['kind'] == 'internal') >= 4:
+      return
     bad = run_lookup(w)
     if bad:
       ctx.violation(bad[0], bad[1], w)
